@@ -2248,3 +2248,26 @@ CASES += [
                 vars
             }"""),
 ]
+
+CNFF = "src/repr/cnf.rs"
+CASES += [
+    # ------------------------------------------------------------------ TX (round 9; also reports C17-r6m1, missed since round 6)
+    dict(name="tx-zero-lines-filtered", file=CNFF, rule="TX", props=["C17", "C19"], expect="Cnf::from_dimacs:text-as-given",
+         old="""        let (_, cvec) = match parse_dimacs(input).unwrap() {""",
+         new="""        let cleaned: String = input.lines().map(str::trim).filter(|l| *l != "%" && *l != "0").collect::<Vec<_>>().join("\\n");
+        let (_, cvec) = match parse_dimacs(&cleaned).unwrap() {"""),
+    dict(name="tx-zero-lines-skipped-in-loop", file=CNFF, rule="TX", props=["C17", "C19"], expect="Cnf::from_dimacs:text-as-given",
+         old="""        let (_, cvec) = match parse_dimacs(input).unwrap() {""",
+         new="""        let mut cleaned = String::new();
+        for l in input.lines() {
+            if l.trim() != "0" {
+                cleaned.push_str(l);
+                cleaned.push('\\n');
+            }
+        }
+        let (_, cvec) = match parse_dimacs(&cleaned).unwrap() {"""),
+    dict(name="tx-comment-and-trailer-filter-ok", file=CNFF, rule="TX", props=["C17", "C19"], expect=None,
+         old="""        let (_, cvec) = match parse_dimacs(input).unwrap() {""",
+         new="""        let cleaned: String = input.replace('\\r', "").lines().filter(|l| !l.trim_start().starts_with('%')).collect::<Vec<_>>().join("\\n");
+        let (_, cvec) = match parse_dimacs(&cleaned).unwrap() {"""),
+]
